@@ -18,7 +18,7 @@ BIN = ['OP_ADD', 'OP_SUB', 'OP_BOOLAND', 'OP_BOOLOR', 'OP_NUMEQUAL', 'OP_NUMEQUA
 quick = []
 for op in UN: quick += [v(op, [1]), v(op, [5], ok=False, fail=True), v(op, [], ok=False, fail=True)]
 for op in ['OP_ADD', 'OP_SUB', 'OP_NUMEQUALVERIFY', 'OP_LESSTHAN', 'OP_MIN', 'OP_BOOLAND']: quick += [v(op, [1, 2], fail=True), v(op, [2, 5], ok=False, fail=True), v(op, [1], ok=False, fail=True)]
-quick += [v('OP_WITHIN', [1, 1, 1]), v('OP_WITHIN', [2, 1, 0])]
+quick += [v('OP_WITHIN', [1, 1, 1]), v('OP_WITHIN', [2, 1, 0]), v('OP_ADD', [4, 4], fail=True), v('OP_1ADD', [4]), v('OP_LESSTHAN', [4, 4], fail=True), v('OP_NEGATE', [4]), v('OP_ABS', [3])]
 for op, n in [('OP_DUP', 1), ('OP_DROP', 1), ('OP_2DROP', 2), ('OP_2DUP', 2), ('OP_3DUP', 3), ('OP_OVER', 2), ('OP_2OVER', 4), ('OP_ROT', 3), ('OP_SWAP', 2), ('OP_2SWAP', 4), ('OP_NIP', 2), ('OP_TUCK', 2), ('OP_IFDUP', 1), ('OP_DEPTH', 2)]:
     quick += [v(op, [2, 1, 3, 2][:n])]
     if n > 0 and op != 'OP_DEPTH': quick += [v(op, [2, 1, 3, 2][:n - 1], ok=False, fail=True)]
@@ -47,7 +47,7 @@ def sq(ops, lens, ok=True, fail=False, sv=0):
     name = '_'.join(x[3:].lower() for x in ops) + '__' + ('x'.join(map(str, lens)) or 'empty') + ('_w0' if sv else '')
     return (name, '%d, %d, %d, %d, %d, %d, %d, %d, %d, %d' % (o[0], o[1], o[2], o[3], len(lens), ls[0], ls[1], ls[2], (1 if ok else 0) | (2 if fail else 0), sv))
 seq_quick = [
-    sq(['OP_IF', 'OP_1', 'OP_ENDIF'], [1]), sq(['OP_IF', 'OP_1', 'OP_ENDIF'], [2], fail=True, sv=1), sq(['OP_NOTIF', 'OP_2', 'OP_ELSE', 'OP_3'], [1], ok=False, fail=True),
+    sq(['OP_IF', 'OP_1', 'OP_ENDIF'], [1]), sq(['OP_IF', 'OP_1', 'OP_ENDIF'], [1], fail=True, sv=1), sq(['OP_NOTIF', 'OP_2', 'OP_ELSE', 'OP_3'], [1], ok=False, fail=True),
     sq(['OP_IF', 'OP_ELSE', 'OP_7', 'OP_ENDIF'], [1]), sq(['OP_IF', 'OP_ENDIF'], [], ok=False, fail=True), sq(['OP_NOTIF', 'OP_VERIF', 'OP_ENDIF'], [1], ok=False, fail=True),
     sq(['OP_IF', 'OP_MUL', 'OP_ENDIF'], [0], ok=False, fail=True), sq(['OP_IF', 'OP_RETURN', 'OP_ENDIF', 'OP_1NEGATE'], [1], fail=True), sq(['OP_ELSE'], [1], ok=False, fail=True),
     sq(['OP_CHECKLOCKTIMEVERIFY'], [4], fail=True), sq(['OP_CHECKLOCKTIMEVERIFY'], [5], fail=True), sq(['OP_CHECKLOCKTIMEVERIFY'], [], fail=True), sq(['OP_CHECKSEQUENCEVERIFY'], [4], fail=True), sq(['OP_CHECKSEQUENCEVERIFY'], [5], fail=True),
@@ -58,16 +58,16 @@ HARNESSES = [
     H('scriptnum_decode', 'scriptnum.cpp', 'h_decode', link=['script/script.cpp', 'uint256.cpp'], variants=[{'LEN': l} for l in range(0, 7)], shadow=['nofmt'], unwind=12, memunwind=40, timeout=400, objbits=10,
       functions=['CScriptNum::CScriptNum(vector, fRequireMinimal, nMaxNumSize)', 'CScriptNum::set_vch', 'CScriptNum::getint', 'CScriptNum::GetInt64'],
       bounds='all byte strings of length 0..6, both minimal modes, nMaxNumSize 4 and 5'),
-    H('scriptnum_encode', 'scriptnum.cpp', 'h_encode', link=['script/script.cpp', 'uint256.cpp'], shadow=['nofmt'], unwind=12, memunwind=40, timeout=2400, tier='thorough', objbits=10, backends=['default', 'cadical', 'kissat'],
+    H('scriptnum_encode', 'scriptnum.cpp', 'h_encode', link=['script/script.cpp', 'uint256.cpp'], shadow=['nofmt'], unwind=12, memunwind=12, cbmc=['-D', 'VERIF_ALLOC_MAX=32'], timeout=1200, objbits=10, backends=['default', 'kissat'],
       functions=['CScriptNum::serialize'], bounds='all 64-bit values except INT64_MIN (excluded by the documented contract of serialize)', assumptions=['value != INT64_MIN']),
     H('evalseq', 'evalseq.cpp', 'h_evalseq', link=['script/interpreter.cpp', 'script/script.cpp', 'script/script_error.cpp', 'primitives/transaction.cpp', 'uint256.cpp', 'hash.cpp', 'crypto/ripemd160.cpp', 'crypto/sha1.cpp', 'crypto/sha256.cpp'],
-      entries=seq_quick, shadow=['nofmt'], unwind=12, memunwind=40, timeout=900, objbits=11, unwindset='_ZN10CScriptNum9serializeERKl.0:7',
+      entries=seq_quick, shadow=['nofmt'], unwind=12, memunwind=40, timeout=900, objbits=11, replace={'_ZN10CScriptNum9serializeERKl': 'verif_repl_serialize'},
       functions=['EvalScript: ConditionStack, OP_IF/NOTIF/ELSE/ENDIF/VERIF, OP_0..OP_16, OP_CHECKLOCKTIMEVERIFY, OP_CHECKSEQUENCEVERIFY, OP_CHECKSIG(VERIFY) via EvalChecksigPreTapscript, FindAndDelete'],
-      stubs=['signature checker = abstract checker with symbolic verdicts (records its arguments)', 'CPubKey/XOnlyPubKey nondeterministic stubs (unreached: no encoding flags)', 'tinyformat -> empty strings'],
+      stubs=['CScriptNum::serialize replaced by a single-allocation encoder equal to the reference encoder (see scriptnum_encode)', 'signature checker = abstract checker with symbolic verdicts (records its arguments)', 'CPubKey/XOnlyPubKey nondeterministic stubs (unreached: no encoding flags)', 'tinyformat -> empty strings'],
       bounds='%d scripts of <= 4 opcodes; <= 3 stack elements of concrete length <= 5; flags MINIMALDATA, MINIMALIF, CLTV, CSV, NULLFAIL, DISCOURAGE_UPGRADABLE_NOPS symbolic; SigVersion BASE or WITNESS_V0 per entry' % len(seq_quick)),
     H('evalop', 'evalop.cpp', 'h_evalop', link=['script/interpreter.cpp', 'script/script.cpp', 'script/script_error.cpp', 'primitives/transaction.cpp', 'uint256.cpp', 'hash.cpp', 'crypto/ripemd160.cpp', 'crypto/sha1.cpp', 'crypto/sha256.cpp'],
-      entries=quick, tentries=thorough, shadow=['nofmt'], unwind=12, memunwind=40, timeout=900, objbits=11, unwindset='_ZN10CScriptNum9serializeERKl.0:7',
+      entries=quick, tentries=thorough, shadow=['nofmt'], unwind=12, memunwind=40, timeout=900, objbits=11, replace={'_ZN10CScriptNum9serializeERKl': 'verif_repl_serialize'},
       functions=['EvalScript (script/interpreter.cpp)', 'CScriptNum ctor/getint/getvch/serialize/IsMinimallyEncoded (script/script.h)', 'CastToBool', 'CScript::GetOp/GetScriptOp', 'stack helpers (stacktop, popstack)', 'std::vector<std::vector<unsigned char>> (libstdc++)'],
-      stubs=['tinyformat -> empty strings', 'assertion_fail -> CBMC assertion', 'BaseSignatureChecker (default: every check fails; not reached by these opcodes)'],
+      stubs=['CScriptNum::serialize replaced by a single-allocation encoder equal to the reference encoder (equivalence with the real serialize for all int64: harness scriptnum_encode)', 'tinyformat -> empty strings', 'assertion_fail -> CBMC assertion', 'BaseSignatureChecker (default: every check fails; not reached by these opcodes)'],
       bounds='one opcode per query (%d quick / %d thorough shapes); <= 4 stack elements of 0..5 bytes (concrete lengths, symbolic bytes); flags MINIMALDATA, DISCOURAGE_UPGRADABLE_NOPS, MINIMALIF symbolic; SigVersion BASE' % (len(quick), len(thorough))),
 ]
